@@ -3,11 +3,12 @@
    operations mixed, cancellation at every point, forget, conversions, handle clone / drop):
      strong count = user handles + owned guards alive + futures that still own a handle
    (lock_arc until it completes, acquire_arc until it is dropped, upgrade of an Arc guard until it
-   completes); for Mutex and Semaphore also: the lock is dropped exactly when that count reaches 0,
-   at most once. The drop-once clause for the RwLock machine is not yet proved (it needs the extra
-   invariant that a borrowed future keeps a user handle alive); it is monitored. Memory safety of
+   completes); the lock and its value are dropped exactly when that count reaches 0, at most once
+   (for the RwLock this uses that whatever borrows the lock or a user's handle — every future except an
+   UpgradeArc, every borrowed guard — keeps a user handle alive, which the machine enforces on RDropArc as
+   the borrow checker does, and that an UpgradeArc owns its handle until it completes). Memory safety of
    the unsafe pointer plumbing is outside the model. *)
-From AL Require Import Base Api Mutex MutexApi Semaphore SemApi RwLock RwApi ArcCount.
+From AL Require Import Base Api Mutex MutexApi Semaphore SemApi RwLock RwApi ArcCount RwDrop.
 From AL.Tie Require Tie_Mutex Tie_Semaphore Tie_Raw Tie_RwLock Tie_RwFutures.
 
 Theorem C15_mutex_count : forall ops : list mop,
@@ -27,6 +28,19 @@ Proof. intros n ops. apply (run_SArc n ops). Qed.
 Theorem C15_rwlock_count : forall ops : list rop,
   N.of_nat (r_strong (rrun ops)) = N.of_nat (r_handles (rrun ops)) + r_ag (rrun ops) + r_of (rrun ops).
 Proof. intro ops. apply (run_RArc ops). Qed.
+
+Theorem C15_rwlock_dropped_once : forall ops : list rop,
+  r_dropped (rrun ops) = (if Nat.eqb (r_strong (rrun ops)) 0 then 1 else 0)%nat.
+Proof. intro ops. apply (run_RDrop ops). Qed.
+
+Corollary C15_rwlock_guard_valid : forall ops g gk,
+  alookup g (r_guards (rrun ops)) = Some (gk, true) -> (1 <= r_strong (rrun ops))%nat /\ r_dropped (rrun ops) = 0%nat.
+Proof.
+  intros ops g gk L. pose proof (C15_rwlock_count ops) as E.
+  pose proof (ApiFacts.asum_In (fun v : gkind * bool => b2n (snd v)) _ _ _ (ApiFacts.alookup_In _ _ _ L)) as H. cbn in H. unfold r_ag in E.
+  assert (S1 : (1 <= r_strong (rrun ops))%nat) by Lia.lia. split; [exact S1|].
+  rewrite C15_rwlock_dropped_once. destruct (r_strong (rrun ops)); [Lia.lia | reflexivity].
+Qed.
 
 (* an owned guard keeps the lock alive after every user handle is gone *)
 Corollary C15_mutex_guard_valid : forall ops g,
@@ -50,4 +64,6 @@ Print Assumptions C15_mutex_dropped_once.
 Print Assumptions C15_semaphore_count.
 Print Assumptions C15_semaphore_dropped_once.
 Print Assumptions C15_rwlock_count.
+Print Assumptions C15_rwlock_dropped_once.
+Print Assumptions C15_rwlock_guard_valid.
 Print Assumptions C15_mutex_guard_valid.
